@@ -25,13 +25,13 @@ import (
 // evaluated in rational arithmetic from the printed integers.
 
 // the predicates named in the specification
-func cIsPosRe(z complex128) bool   { return real(z) > 0 }                   // CIsPosRe
-func cReEq(a, b complex128) bool   { return real(a) == real(b) }            // CReEq
-func fAbsEq(a, b float64) bool     { return math.Abs(a) == math.Abs(b) }    // FAbsEq
-func isSpecial(code int64) bool    { return code >= cNaN && code <= cNZero } // a special-value code
-func pow2(k int) *big.Rat          { return new(big.Rat).SetFrac(pow2i(k), pow2i(-k)) }
-func ratOf(f float64) *big.Rat     { r := new(big.Rat); r.SetFloat64(f); return r }
-func finite(f float64) bool        { return !math.IsNaN(f) && !math.IsInf(f, 0) }
+func cIsPosRe(z complex128) bool { return real(z) > 0 }                    // CIsPosRe
+func cReEq(a, b complex128) bool { return real(a) == real(b) }             // CReEq
+func fAbsEq(a, b float64) bool   { return math.Abs(a) == math.Abs(b) }     // FAbsEq
+func isSpecial(code int64) bool  { return code >= cNaN && code <= cNZero } // a special-value code
+func pow2(k int) *big.Rat        { return new(big.Rat).SetFrac(pow2i(k), pow2i(-k)) }
+func ratOf(f float64) *big.Rat   { r := new(big.Rat); r.SetFloat64(f); return r }
+func finite(f float64) bool      { return !math.IsNaN(f) && !math.IsInf(f, 0) }
 func pow2i(k int) *big.Int {
 	if k <= 0 {
 		return big.NewInt(1)
